@@ -101,7 +101,7 @@ char interestingByte()
 
 std::string genLeading()
 {
-    if (chance(55)) return std::string();
+    if (chance(62)) return std::string();
     static const Strs pieces = {"\r\n", "\r\n", "\r\n", "\n", "\n", "\r", "\r\r\n", " ", "\t", std::string("\0", 1), "\r\n\r\n", "x", "\n\r\n"};
     std::string s;
     const int n = *vp::range<int>(1, 3);
@@ -112,11 +112,11 @@ std::string genLeading()
 std::string genMethod()
 {
     const int k = *vp::range<int>(0, 19);
-    if (k < 12) {
+    if (k < 15) {
         static const Strs known = {"GET", "GET", "GET", "POST", "HEAD", "PUT", "CONNECT", "OPTIONS", "DELETE", "TRACE", "PRI", "PURGE", "get", "Get", "PROPFIND"};
         return pick(known);
     }
-    if (k < 16) {
+    if (k < 17) {
         static const std::string tchar = "!#$%&'*+-.^_`|~0123456789abcXYZ";
         std::string s;
         const int n = *vp::range<int>(1, 8);
@@ -129,7 +129,7 @@ std::string genMethod()
 
 std::string genDelim()
 {
-    if (chance(80)) return " ";
+    if (chance(88)) return " ";
     static const Strs d = {"  ", "\t", "\v", "\f", "\r", " \t", "", " \r", "   "};
     return pick(d);
 }
@@ -137,12 +137,12 @@ std::string genDelim()
 std::string genTarget()
 {
     const int k = *vp::range<int>(0, 19);
-    if (k < 11) {
+    if (k < 13) {
         static const Strs t = {"/", "/", "/index.html", "/a/b?c=d", "*", "http://example.com/", "http://example.com:80/p?q#f",
                                "example.com:443", "/%41%zz", "//", "/1.1", "/HTTP/1.1", "/x/1", "http://[::1]:8080/"};
         return pick(t);
     }
-    if (k < 16) {
+    if (k < 17) {
         static const Strs t = {"/a b", "/\xc3\xa9", "/{x}|y", "/\"q\"", "/a\tb", "/x\x01y", "", "/a\rb", "/a\\b", "/<>", std::string("/a\0b", 4), "/ HTTP/1.0 ", "/^`"};
         return pick(t);
     }
@@ -156,16 +156,16 @@ std::string genVersion(bool &none)
 {
     none = false;
     const int k = *vp::range<int>(0, 19);
-    if (k < 11) return "HTTP/1.1";
-    if (k < 13) return "HTTP/1.0";
-    if (k < 15) { none = true; return std::string(); }
+    if (k < 12) return "HTTP/1.1";
+    if (k < 15) return "HTTP/1.0";
+    if (k < 17) { none = true; return std::string(); }
     static const Strs v = {"HTTP/0.9", "HTTP/2.0", "HTTP/1.10", "HTTP/11.1", "http/1.1", "HTTP/1.", "HTTP/1", "HTTP/", "HTTP/1.1x", "ICY", "HTTP/1,1", "HTTP/.1", "HTTP/9.9", "HTTP/0.0"};
     return pick(v);
 }
 
 std::string genEol()
 {
-    if (chance(72)) return "\r\n";
+    if (chance(84)) return "\r\n";
     static const Strs e = {"\n", "\n", "\r\r\n", "\r", "\n\r", "", "\r\r\r\n", " \r\n"};
     return pick(e);
 }
@@ -275,11 +275,11 @@ rc::Gen<Case> gen()
         const size_t headLen = s.size();
         s += genTrailing();
 
-        if (chance(35)) mutate(s);
+        if (chance(25)) mutate(s);
         if (s.empty()) s = "\r";
         c.input = s;
 
-        if (big || chance(45)) c.limit = hugeTarget ? 200000 : (big && chance(30) ? 100000 : 65536);
+        if (big || chance(60)) c.limit = hugeTarget ? 200000 : (big && chance(30) ? 100000 : 65536);
         else {
             const int k = *vp::range<int>(0, 6);
             const long long d = *vp::range<int>(-3, 3);
